@@ -1544,8 +1544,8 @@ class MiscFam(Family):
     theorem = False
     no_model = True
     exact = False
-    KINDS = ["ccos", "ccos_nv", "mm2", "mm1", "gemm2mm", "slice_split", "hardswish", "hardsigmoid", "conv_affine", "affine_conv",
-             "layernorm", "dynscatter"]
+    # the other kinds built below now have their own modelled families in c05_families2.py
+    KINDS = ["layernorm"]
     rule_keys = ("cast_constant_of_shape_rule", "cast_constant_of_shape_without_value_rule", "two_reshapes_matmul_reshape_rule",
                  "one_reshape_matmul_reshape_rule", "gemm_to_matmul_add_rule", "slice_split_rule", "fuse_hardswish_rules",
                  "conv_affine_fusion_rule", "affine_conv_fusion_rule", "fusion._layer_norm._layer_norm_rule", "no_op_dynamic_scatter_nd_rule")
@@ -1555,8 +1555,7 @@ class MiscFam(Family):
         return {"fam": "misc", "kind": k, "v": rng.randint(0, 5), "near": rng.random() < 0.3}
 
     def corpus(self):
-        return [{"fam": "misc", "kind": k, "v": 0, "near": False} for k in self.KINDS] + \
-               [{"fam": "misc", "kind": "gemm2mm", "v": 1, "near": False}]
+        return [{"fam": "misc", "kind": k, "v": v, "near": False} for k in self.KINDS for v in (0, 1)]
 
     def build(self, c):
         import onnx
